@@ -255,6 +255,13 @@ struct Fn {
     g_run->Note(idx);
     return Produce<RC>(beh, 0);
   }
+  // a SharedFuture hands its continuations a const reference to the Result it keeps
+  template <char B = A, std::enable_if_t<B == 'R', int> = 0>
+  Ret operator()(const Result<HV>& r) {
+    g_run->Note(idx);
+    int n = r.State() == yaclib::ResultState::Value ? r.Value().v : 0;
+    return Produce<RC>(beh, n);
+  }
   template <char B = A, std::enable_if_t<B == 'R', int> = 0>
   Ret operator()(Result<HV>&& r) {
     g_run->Note(idx);
@@ -286,6 +293,17 @@ void AttachEager(Holder& h, const std::string& att, int idx, Beh beh) {
     } else {
       h = Holder{std::in_place_index<1>, std::move(std::get<1>(h)).Then(Exec(att), std::move(fn))};
     }
+  }
+}
+
+// first step of a pipeline whose source is a SharedFuture
+template <char A, int RC>
+void AttachShared(const yaclib::SharedFuture<HV>& sf, Holder& h, const std::string& att, int idx, Beh beh) {
+  Fn<A, RC> fn{idx, beh, {}};
+  if (att == "inline") {
+    h = Holder{std::in_place_index<0>, sf.ThenInline(std::move(fn))};
+  } else {
+    h = Holder{std::in_place_index<1>, sf.Then(Exec(att), std::move(fn))};
   }
 }
 
@@ -423,8 +441,23 @@ std::string RunProgram(const Program& p) {
       Holder h{std::in_place_index<0>, Future<HV>{}};
       yaclib::Promise<HV> later;
       std::string later_kind;
+      yaclib::SharedFuture<HV> shared_src;
+      yaclib::SharedPromise<HV> shared_later;
       const auto& s = p.src;
-      if (s == "ready_val") {
+      if (s.rfind("sready_", 0) == 0 || s.rfind("safter_", 0) == 0) {
+        auto [sf, sp] = yaclib::MakeSharedContract<HV>();
+        shared_src = std::move(sf);
+        if (s == "sready_val") {
+          std::move(sp).Set(HV{1});
+        } else if (s == "sready_err") {
+          std::move(sp).Set(yaclib::StopTag{});
+        } else if (s == "sready_exc") {
+          std::move(sp).Set(std::make_exception_ptr(TE{3}));
+        } else {
+          shared_later = std::move(sp);
+          later_kind = s;
+        }
+      } else if (s == "ready_val") {
         h = Holder{std::in_place_index<0>, yaclib::MakeFuture<HV>(HV{1})};
       } else if (s == "ready_err") {
         h = Holder{std::in_place_index<0>, yaclib::MakeFuture<HV>(yaclib::StopTag{})};
@@ -466,10 +499,21 @@ std::string RunProgram(const Program& p) {
       for (auto& st : p.steps) {
         ++idx;
         Dispatch<Holder>(st.arg, RetClass(st.beh), [&](auto a, auto rc) {
-          AttachEager<decltype(a)::value, decltype(rc)::value>(h, st.att, idx, st.beh);
+          if (idx == 1 && shared_src.Valid()) {
+            AttachShared<decltype(a)::value, decltype(rc)::value>(shared_src, h, st.att, idx, st.beh);
+          } else {
+            AttachEager<decltype(a)::value, decltype(rc)::value>(h, st.att, idx, st.beh);
+          }
         });
       }
       build_news = vrt::GetAllocStats().news - stats0.news;
+      if (shared_later.Valid()) {
+        if (later_kind == "safter_val") {
+          std::move(shared_later).Set(HV{1});
+        } else {
+          std::move(shared_later).Set(std::make_exception_ptr(TE{3}));
+        }
+      }
       if (later.Valid()) {
         if (later_kind == "after_val") {
           std::move(later).Set(HV{1});
@@ -480,6 +524,9 @@ std::string RunProgram(const Program& p) {
         }
       }
       FulfilPending(run);
+      if (shared_src.Valid() && p.steps.empty()) {
+        final = shared_src.Ready() ? DescR(shared_src.Touch()) : std::string("not_ready");
+      } else
       std::visit(
         [&](auto& f) {
           if (!f.Valid()) {
